@@ -168,6 +168,13 @@ def ite(c: T, a: T, b: T) -> T:
         return a
     if is_const(c):
         return a if const_val(c) else b
+    # the same test nested in a branch is already decided there
+    if a.op == "ite" and a.args[0] is c:
+        a = a.args[1]
+    if b.op == "ite" and b.args[0] is c:
+        b = b.args[2]
+    if a is b:
+        return a
     return T("ite", c, a, b)
 
 
